@@ -383,40 +383,36 @@ def run_jobs(scratch, jobs, stats):
         return [f.result() for f in futs]
 
 
-def expr_jobs(alpha, n, vals, root_groups):
-    """The space Exprs(alpha, n) split into the trees with < n nodes and, for exactly n nodes, one job per group of root kinds."""
-    jobs = []
-    if n == 0 or not root_groups:
-        return [('%s-%d-all' % (alpha, n), {'mode': 'exprs', 'alpha': alpha, 'n': n, 'part': 'small', 'vals': vals, 'roots': []})]
-    jobs.append(('%s-%d-small' % (alpha, n), {'mode': 'exprs', 'alpha': alpha, 'n': n - 1, 'part': 'small', 'vals': vals, 'roots': []}))
-    for i, g in enumerate(root_groups):
-        jobs.append(('%s-%d-r%d' % (alpha, n, i), {'mode': 'exprs', 'alpha': alpha, 'n': n, 'part': 'rooted', 'vals': vals,
-                                                     'roots': list(g)}))
-    return jobs
-
-
 def alphabet(scratch, alpha, stats):
-    """The named alphabet of the spec: {'un': [...], 'bin': [...], 'ter': [...], 'names': [...]}."""
-    return _evaluate_cached(scratch, {'mode': 'kinds', 'alpha': alpha}, 'kinds-' + alpha, stats)[0]
+    """The named alphabet of the spec: {'un': [...], 'bin': [...], 'ter': [...], 'names': [...]} (+ sizes when asked)."""
+    return _evaluate_cached(scratch, {'mode': 'count', 'alpha': alpha, 'n': 0, 'distinct': False, 'gn': -1}, 'kinds-' + alpha, stats)[0]
 
 
-def root_groups(A, ngroups):
-    """Split the operator kinds into groups of similar weight (a kind with more operand slots heads more trees)."""
-    groups = [[] for _ in range(ngroups)]
-    weights = [0] * ngroups
-    for w, kinds in ((9, sorted(A['ter'])), (3, sorted(A['bin'])), (1, sorted(A['un']))):
-        for kd in kinds:
-            i = weights.index(min(weights))
-            groups[i].append(kd)
-            weights[i] += w
-    return [g for g in groups if g]
-
-
-def exprs_table(scratch, alpha, n, vals, stats, ngroups=None):
-    """All rows {e, k, tab} of Exprs(alpha, n) under the value set `vals`; returns (rows, names)."""
-    A = alphabet(scratch, alpha, stats)
-    groups = root_groups(A, ngroups or WORKERS) if n >= 1 else []
+def _sliced(scratch, base, tag, parts, stats):
+    jobs = [('%s-p%d' % (tag, i), dict(base, part=i, parts=parts)) for i in range(1, parts + 1)]
     rows = []
-    for part in run_jobs(scratch, expr_jobs(alpha, n, vals, groups), stats):
+    for part in run_jobs(scratch, jobs, stats):
         rows.extend(part)
-    return rows, A['names']
+    return rows
+
+
+def exprs_table(scratch, alpha, n, vals, stats, parts=None):
+    """Rows {e, k, tab} for every tree of ExprSeq(alpha, n) under the value set `vals`, computed by `parts` TLC processes
+    (each enumerates the space and evaluates its slice)."""
+    return _sliced(scratch, {'mode': 'exprs', 'alpha': alpha, 'n': n, 'vals': vals}, '%s-%d' % (alpha, n), parts or WORKERS, stats)
+
+
+def gens_table(scratch, alpha, n, vals, stats, parts=None):
+    """Rows {g, elt, conds, runs} for every generator shell of GenShellSeq(alpha, n)."""
+    return _sliced(scratch, {'mode': 'gens', 'alpha': alpha, 'n': n, 'vals': vals}, 'gens-%s-%d' % (alpha, n), parts or WORKERS, stats)
+
+
+def trees_table(scratch, trees, names, vals, stats, gens=False, chunk=2000):
+    """Rows for explicitly given trees (seeded random trees, replay)."""
+    jobs = []
+    for i in range(0, len(trees), chunk):
+        jobs.append(('trees-%d' % i, {'mode': 'gentrees' if gens else 'trees', 'trees': trees[i:i + chunk], 'names': list(names), 'vals': vals}))
+    rows = []
+    for part in run_jobs(scratch, jobs, stats):
+        rows.extend(part)
+    return rows
